@@ -274,6 +274,17 @@ func (ws *WatchingSource) Watch(
 // content-changes with an HMAC-SHA256 before reporting anything upstream.
 const k8sIntermediateSymlinkDir = "..dir"
 
+// reportNewValue hands a newly read value to dials. The base WatchArgs only
+// fails once ctx is done, but a wrapping implementation (e.g. the one
+// sourcewrap.NewTransformingSource puts in front of this source) may refuse
+// the value, for instance because it cannot be translated back. That is a
+// problem with the file's new contents which nobody else will report.
+func reportNewValue(ctx context.Context, args dials.WatchArgs, newVal reflect.Value) {
+	if err := args.ReportNewValue(ctx, newVal); err != nil && ctx.Err() == nil {
+		args.ReportError(ctx, err)
+	}
+}
+
 func (ws *WatchingSource) watchLoop(
 	ctx context.Context,
 	t *dials.Type,
@@ -384,7 +395,7 @@ MAINLOOP:
 				// so this error must not be dropped: report what was
 				// read first (if anything), then the error.
 				if parseErr == nil {
-					args.ReportNewValue(ctx, newVal)
+					reportNewValue(ctx, args, newVal)
 				}
 				parseErr = rereadErr
 			}
@@ -393,7 +404,7 @@ MAINLOOP:
 		switch t := parseErr.(type) {
 		case nil:
 			// no error, report upward
-			args.ReportNewValue(ctx, newVal)
+			reportNewValue(ctx, args, newVal)
 
 		case *unchangedCSumErr:
 			// Same contents, ignore the new value.
